@@ -135,4 +135,19 @@ def finish (s : St) : List Ev :=
   | none => s.wire
   | some r => s.wire ++ [.header (if r.status == 0 then 200 else r.status), .body r.body]
 
+/-! ### two producers of raw responses
+
+A raw response can come from the test case (`rawResponseRecorder` calls `setRawResponse` with the
+prescribed one, before the handler) and from the server itself (`parseUnaryResponseDefinition`
+synthesises one for a unary gRPC / gRPC-Web error with response headers and calls
+`setRawResponse` from inside the handler). -/
+
+/-- `rawResponseRecorder` (WrapUnary / WrapStreamingHandler): with a prescribed raw response it
+stores it and ends the call with an error — the handler does not run; without one the handler runs
+(its operations may include a synthesised raw response). -/
+def recorded (prescribed : Option Raw) (handler : List Op) : List Op :=
+  match prescribed with
+  | some r => [.setRaw r]
+  | none => handler
+
 end ConfModel.RawBody
